@@ -444,6 +444,8 @@ class ExprMixin(object):
 
     def seq_append(self, st, a, x):
         """a + [x] as a named sequence with its element-wise definition (triggers on r[i] let quantified invariants about `a` fire)"""
+        if getattr(self, '_defining_rec', False):
+            return SV(a.sort, z3.Concat(a.t, z3.Unit(x.t)))      # inside a recursive definition: the plain term, no side facts
         r = fresh(a.sort, 'app')
         i = z3.Int(fresh_name('ai'))
         n = z3.Length(a.t)
@@ -524,6 +526,8 @@ class ExprMixin(object):
             return ClassRef(attr)
         if base.name in ('logger', 'logging'):
             return SpecFn('builtin:log')
+        if base.name == 'collections' and attr == 'deque':
+            return SpecFn('builtin:list')        # LIB: a deque built from an iterable iterates as that sequence
         return SpecFn('func:' + attr)
 
     def ev_Subscript(self, node, st):
